@@ -29,10 +29,14 @@ CLAIMS = {
    tech="kind-dispatch coverage + field-coverage of the eight typeImpl.Equals implementations + writer/reader tag-table agreement for type JSON",
    text="Decides: each typeImpl.Equals asserts the other side to its own concrete type and compares every field from both sides; HasDynamicTypes / WithoutOptionalAttributesDeep / MarshalJSON cover all kinds with a panicking residual; testConformance recurses given-vs-want per compound kind and its residual appends an error; the type names written by MarshalJSON equal those accepted by UnmarshalJSON; stripping rebuilds every compound kind and never constructs optional attributes.",
    note="Not decided: the equivalence laws and the conformance characterisation over all type pairs as value facts. "),
- "C08": dict(rules=["C08.optional-taint","C08.partial-constructors","C08.safe-implies-unsafe","C08.safe-primitives-cannot-fail","C08.kind-total"],
+ "C08": dict(rules=["C08.optional-taint","C08.partial-constructors","C08.safe-implies-unsafe","C08.safe-primitives-cannot-fail","C08.kind-total","C08.result-depends-on-target","C08.dynamic-replace-fallback","C19.kind-contradiction","C09.composition"],
    tech="information-flow (optional-attribute taint to value constructors) + dominance of partial constructors + monotone-flag shape rule for 'unsafe'",
    text="Decides: a requested type reaches NullVal/UnknownVal/empty-collection constructors only through WithoutOptionalAttributesDeep; every ListVal/SetVal/MapVal in package convert is dominated by an emptiness exit and a Can*Val exit; the unsafe flag only ever enables conversions and is passed unchanged to nested lookups; safe primitive conversions return a nil error on all paths; getConversionKnown considers every source and target kind.",
    note="Not decided: idempotence, information preservation, refinement admission, 'safe never fails for any value' beyond the primitive table (value-level). "),
+ "C09": dict(rules=["C09.composition","C09.slot-assigned","C09.loopvar-capture","C09.unify-result-checked"],
+   tech="liveness of conversion results on the success path over go/cfg + definite assignment of per-iteration result slots + escaping closures over loop variables + guard dominance over uses of unification results",
+   text="Decides: a conversion's result is used on the success path wherever conversions are composed (the second stage receives the first stage's output); inside unify's retry loop every inner iteration assigns its conversions slot on every path (nothing is left over from a rejected candidate); no stored or returned closure refers to a loop variable under the module's pre-1.22 loop semantics; conversions returned by a unification helper are indexed only after its type result was tested.",
+   note="Not decided: that the returned conversions succeed on all values, that the chosen type is the most general, that safe mode never fails — value-level. "),
  "C10": dict(rules=["C10.loop-agreement","C10.arg-index","C10.impl-after-typecheck","C10.conformance-assert","C10.refine-applied"],
    tech="sibling agreement of the positional/variadic loops + dominance (must-pass-through) in Function.Call + who-may-call Spec.Impl/Spec.Type",
    text="Decides: both argument loops of returnTypeForValues and Call read the same Parameter flags with the same exits; variadic argument errors carry the adjusted index; Spec.Impl runs only in Call, dominated by a successful returnTypeForValues on the same args, by the unknown short-circuit exit and by a recovering defer; the implementation's result is returned only after TestConformance; the RefineResult defer is registered unconditionally for typed results.",
@@ -61,7 +65,11 @@ CLAIMS = {
    tech="taint tracking of input-supplied lengths to allocation sizes over go/ssa (dominating bound checks as sanitisers) + forward may-analysis of unread errors over go/cfg + data/control dependence of successful returns on the requested type + guard dominance for panicking constructors",
    text="Decides, for every function reachable from the five decoder entry points: no length read from the input sizes an allocation without a dominating bound; no error variable is overwritten or dropped unread; every successful return of a type-directed decoder depends on the requested type; ListVal/SetVal/MapVal are dominated by the Can*Val test, ObjectWithOptionalAttrs by a validation of the optional names, refinement-builder replays by a recovering defer; structural values are returned only after the member count was compared with the type (distinct members for by-name decoding) or completed from it.",
    note="Not decided: panics needing value ranges inside the third-party JSON/msgpack tokenizers, stack depth on deeply nested input, the exact memory multiple. "),
- "C20": dict(rules=["C20.no-payload-write","C20.no-global-write","C20.closure-state","C20.builder-copy","C20.set-storage","C20.no-alias-out","C20.no-retention-in"],
+ "C19": dict(rules=["C19.kind-total","C19.kind-contradiction","C19.rebuild-preserves-marks","C19.transformer-purity","C20.order-free-results"],
+   tech="kind-dispatch coverage of walk/transform/iterators + belief-contradiction typestate on type kinds (relational worlds over go/cfg) + AST rule on every value handed to Transformer.Exit + go/ssa effect analysis of the transformers + map-range order classification",
+   text="Decides: walk, transform, UnknownAsNull and the element iterators have a branch for each of the five compound kinds; path steps call kind-specific type accessors only for kinds their own guards admit; transform hands Exit either the original marked value or a rebuilt container re-marked with the peeled marks; the path-marks transformers never write the caller's slice and retain paths only as copies; no map range in the traversal code invokes callbacks or exits differently depending on iteration order.",
+   note="Not decided: exactly-once visiting and that each reported path leads back to the visited member as value facts; path-set algebra beyond storage independence (C20.set-storage). "),
+ "C20": dict(rules=["C20.no-payload-write","C20.no-global-write","C20.closure-state","C20.builder-copy","C20.set-storage","C20.no-alias-out","C20.no-retention-in","C20.order-free-results","C09.loopvar-capture"],
    tech="ownership / alias / effect analysis over go/ssa (origin tracing with field-sensitive callee summaries): who may write payload memory, what escapes through results, what is retained from parameters, which escaping closures write captured state",
    text="Decides: no function writes memory reached through Value.v, marker.realV/marks, unknownType.refinement or a typeImpl record of anything it did not allocate; nothing writes package-level state after init; no escaping closure writes a captured variable; a refinement record is never shared between a value and the mutable builder; every function returning a set returns a fresh bucket map and buckets are not shared while Add appends in place; exported accessors returning Go references return copies; exported constructors do not retain caller-owned slices/maps/pointers (documented transfers tabled).",
    note="Not decided: actual schedules and the race detector's view; purity of application-supplied capsule operations; aliases laundered through interface-typed fields beyond the summaries' depth (recorded as assumed). "),
